@@ -463,6 +463,27 @@ def wl_options(ctx, R, tz):
         checks.append(('tzid-default-gettz', [x.tzinfo for x in r] == [ny, ny]))
     r = R.rrulestr('DTSTART;TZID=X/Y:19970902T090000\nRRULE:FREQ=DAILY;COUNT=2', tzids={'X/Y': tz.tzoffset('X/Y', 3600)})
     checks.append(('tzids-mapping', [x.utcoffset() for x in r] == [D.timedelta(hours=1)] * 2))
+    # tzinfos reaches every date of the text: a start and an UNTIL written with names only tzinfos knows give the keyword rule
+    qst, qwt = tz.tzoffset('QST', -5 * 3600), tz.tzoffset('QWT', 3 * 3600)
+    names = {'QST': qst, 'QWT': qwt}
+    want = list(R.rrule(R.DAILY, dtstart=D.datetime(1997, 9, 2, 9, tzinfo=qst), until=D.datetime(1997, 9, 5, 16, tzinfo=qwt)))
+    for label, tzinfos in (('mapping', names), ('callable', lambda name, off: names.get(name))):
+        for text, opts in (('RRULE:FREQ=DAILY;UNTIL=19970905T160000QWT', {'dtstart': D.datetime(1997, 9, 2, 9, tzinfo=qst)}),
+                           ('DTSTART:19970902T090000QST\nRRULE:FREQ=DAILY;UNTIL=19970905T160000QWT', {}),
+                           ('DTSTART:19970902T090000QST\nRRULE:FREQ=DAILY;UNTIL=19970905T160000QWT\nEXDATE:19970801T090000QST', {})):
+            try:
+                got = list(R.rrulestr(text, tzinfos=tzinfos, **opts))
+                checks.append(('tzinfos-reaches-until-' + label, len(want) == 3 and got == want and all(g.tzinfo is qst for g in got)))
+            except Exception:
+                checks.append(('tzinfos-reaches-until-' + label, False))
+        # ... and a naive start with such an UNTIL is refused like any naive / aware mix
+        try:
+            R.rrulestr('DTSTART:19970902T090000\nRRULE:FREQ=DAILY;UNTIL=19970905T160000QWT', tzinfos=tzinfos)
+            checks.append(('tzinfos-until-naive-start-refused-' + label, False))
+        except ValueError:
+            checks.append(('tzinfos-until-naive-start-refused-' + label, True))
+        except Exception:
+            checks.append(('tzinfos-until-naive-start-refused-' + label, False))
     # a TZID the tzids option does not know gives a naive start - whether the option is a callable returning None, a mapping
     # without the name, or an empty mapping (which is not "option absent")
     import collections
